@@ -322,6 +322,27 @@ theorem back_good (s : AState) (h : s.Ok) : Good s.back (Spec.back s.elems) := b
     simp [this, Good, obsA]
   · simp only [c, if_false]; exact get_good s h _
 
+theorem appendSelf_good (s : AState) (h : s.Ok) : Good s.appendSelf (Spec.const (s.elems ++ s.elems)) :=
+  appendAll_good s h s.elems
+
+theorem appendRef_good (s : AState) (h : s.Ok) (i : Nat) :
+    Good (s.appendRef i) (match s.elems[i]? with
+      | some x => Spec.insert s.elems s.elems.length [x]
+      | none => none) := by
+  unfold appendRef
+  cases s.elems[i]? with
+  | none => simp [Good, obsA]
+  | some x => exact append_good s h x
+
+theorem resizeRef_good (s : AState) (h : s.Ok) (n i : Nat) :
+    Good (s.resizeRef n i) (match s.elems[i]? with
+      | some x => Spec.resize s.elems n x
+      | none => none) := by
+  unfold resizeRef
+  cases s.elems[i]? with
+  | none => simp [Good, obsA]
+  | some x => exact resize_good s h n x
+
 theorem copyFrom_good (s o : AState) (h : s.Ok) (he : s.elems = []) (ho : o.Ok) :
     Good (s.copyFrom o) (Spec.const o.elems) := by
   have hsz : o.elems.length ≤ o.cap := by
